@@ -4,6 +4,7 @@ package main
 // over a memory database, fed with generated pool content and inbound ETX deliveries.
 
 import (
+	"bytes"
 	"fmt"
 	"math"
 	"math/big"
@@ -103,6 +104,7 @@ type contractInfo struct {
 type utxoRef struct {
 	op    types.OutPoint
 	owner int
+	born  int // block step at which the harness learnt about it
 }
 
 type chain struct {
@@ -120,6 +122,9 @@ type chain struct {
 	utxos   []utxoRef
 	fresh   int
 	script  func(c *chain, i int, b *types.WorkObject) types.Transactions // corpus chains: extra inbound ETXs after block i
+	noMut   bool
+	// corpus chains: extra pool content before block i (added to what genPool generates)
+	poolScript func(c *chain, i int, r *hlib.Rng, head *types.WorkObject, base *big.Int) []*types.Transaction
 }
 
 func newChain(w *world, cfg chainCfg, rng *hlib.Rng, rep *hlib.Report, logger *log.Logger) (*chain, error) {
@@ -155,6 +160,7 @@ func (c *chain) genPool(r *hlib.Rng) {
 	}
 	nonce := map[int]uint64{}
 	var txs []*types.Transaction
+	var repl []quaiSpec // plain transactions of this round that may get a replacement attempt
 	for i := 0; i < k; i++ {
 		s := r.Intn(len(c.w.eoas))
 		if _, ok := nonce[s]; !ok {
@@ -257,6 +263,9 @@ func (c *chain) genPool(r *hlib.Rng) {
 			label = "transfer-data"
 		}
 		txs = append(txs, c.w.signQuai(spec))
+		if kind == 0 || kind == 2 || kind == 8 {
+			repl = append(repl, spec)
+		}
 		nonce[s]++
 		c.rep.Count("pool/" + label)
 	}
@@ -268,6 +277,9 @@ func (c *chain) genPool(r *hlib.Rng) {
 			c.utxos = append(c.utxos[:i], c.utxos[i+1:]...)
 			e := rawdb.GetUTXO(c.n.db, u.op.TxHash, u.op.Index)
 			if e == nil {
+				if u.born+6 > c.height { // the inbound ETX creating it is still queued: retry later
+					c.utxos = append(c.utxos, u)
+				}
 				continue
 			}
 			if e.Lock != nil && e.Lock.Sign() > 0 && e.Lock.Uint64() > head.NumberU64(common.ZONE_CTX)+1 {
@@ -318,6 +330,39 @@ func (c *chain) genPool(r *hlib.Rng) {
 			c.rep.Count("pool/qi")
 		}
 	}
+	// conflict clusters: several pool transactions spending the same outpoint(s)
+	if r.Chance(35) {
+		cl := c.qiCluster(r, head, base, randomPattern(r), r.Chance(25))
+		// interleave with the independent traffic (the worker orders by price anyway; the order of
+		// arrival decides ties and which entry point each member takes)
+		for _, tx := range cl {
+			k := r.Intn(len(txs) + 1)
+			txs = append(txs[:k], append([]*types.Transaction{tx}, txs[k:]...)...)
+		}
+	}
+	// replacement attempts of Quai transactions: same sender and nonce, other content, with a price
+	// bump the pool accepts (>= PriceBump), an insufficient one, or none
+	for _, sp := range repl {
+		if !r.Chance(30) {
+			continue
+		}
+		to := c.w.eoas[r.Intn(len(c.w.eoas))].addr
+		sp.to, sp.value, sp.gas, sp.data = &to, big.NewInt(int64(1+r.Intn(1000))), 21000, nil
+		switch r.Pick(50, 25, 25) {
+		case 0:
+			sp.price = new(big.Int).Add(new(big.Int).Div(new(big.Int).Mul(sp.price, big.NewInt(110)), big.NewInt(100)), big.NewInt(1))
+			c.rep.Count("pool/replace-bumped")
+		case 1:
+			sp.price = new(big.Int).Add(sp.price, big.NewInt(1))
+			c.rep.Count("pool/replace-underpriced")
+		default:
+			c.rep.Count("pool/replace-same-price")
+		}
+		txs = append(txs, c.w.signQuai(sp))
+	}
+	if c.poolScript != nil {
+		txs = append(txs, c.poolScript(c, c.height, r, head, base)...)
+	}
 	for _, tx := range txs {
 		var err error
 		if r.Chance(50) {
@@ -350,7 +395,7 @@ func (c *chain) inbound(r *hlib.Rng, b *types.WorkObject) types.Transactions {
 			to := c.w.qis[i%3].addr
 			in = append(in, etx(&types.ExternalTx{To: &to, Gas: 21000, Value: big.NewInt(int64(9 + i%5)), EtxType: types.DefaultType,
 				OriginatingTxHash: oh, ETXIndex: uint16(i), Sender: c.w.farQi[0].addr}))
-			c.utxos = append(c.utxos, utxoRef{types.OutPoint{TxHash: oh, Index: uint16(i)}, i % 3})
+			c.utxos = append(c.utxos, utxoRef{types.OutPoint{TxHash: oh, Index: uint16(i)}, i % 3, c.height})
 		}
 		c.funded = true
 		c.rep.Count("inbound/funding")
@@ -380,7 +425,7 @@ func (c *chain) inbound(r *hlib.Rng, b *types.WorkObject) types.Transactions {
 			den := int64(r.Intn(15))
 			in = append(in, etx(&types.ExternalTx{To: &to, Gas: 21000, Value: big.NewInt(den), EtxType: types.DefaultType,
 				OriginatingTxHash: oh, ETXIndex: idx, Sender: c.w.farQi[r.Intn(2)].addr}))
-			c.utxos = append(c.utxos, utxoRef{types.OutPoint{TxHash: oh, Index: idx}, own})
+			c.utxos = append(c.utxos, utxoRef{types.OutPoint{TxHash: oh, Index: idx}, own, c.height})
 			c.rep.Count("inbound/qi-utxo")
 		case 3: // Quai -> Qi conversion coming back from prime
 			to := c.w.qis[r.Intn(3)].addr
@@ -491,6 +536,19 @@ func (c *chain) afterAppend(b *types.WorkObject) {
 			}
 		}
 	}
+	// outputs of included Qi transactions owned by the harness keys are spendable from the next block on
+	for _, tx := range b.Transactions() {
+		if tx.Type() != types.QiTxType {
+			continue
+		}
+		for oi, o := range tx.TxOut() {
+			for k := 0; k < 3 && len(c.utxos) < 48; k++ {
+				if bytes.Equal(o.Address, c.w.qis[k].addr.Bytes()) {
+					c.utxos = append(c.utxos, utxoRef{types.OutPoint{TxHash: tx.Hash(), Index: uint16(oi)}, k, c.height})
+				}
+			}
+		}
+	}
 	for _, e := range b.OutboundEtxs() {
 		switch {
 		case types.IsCoinBaseTx(e):
@@ -512,6 +570,8 @@ type corpusCase struct {
 	name   string
 	blocks int
 	script func(c *chain, i int, b *types.WorkObject) types.Transactions
+	pool   func(c *chain, i int, r *hlib.Rng, head *types.WorkObject, base *big.Int) []*types.Transaction
+	noMut  bool // liveness direction only (no mutant battery on this chain)
 }
 
 var corpus = []corpusCase{
@@ -519,7 +579,7 @@ var corpus = []corpusCase{
 	// a cross-zone transfer with a large gas limit, or opETX with a zero fee). TransitionDb returns an
 	// ExecutionResult without QuaiFees for it; worker.commitTransaction and StateProcessor.Process add the
 	// nil fee to their running total.
-	{"etx-gas-above-limit", 6, func(c *chain, i int, b *types.WorkObject) types.Transactions {
+	{name: "etx-gas-above-limit", blocks: 6, script: func(c *chain, i int, b *types.WorkObject) types.Transactions {
 		if i != 2 {
 			return nil
 		}
@@ -531,7 +591,7 @@ var corpus = []corpusCase{
 	}},
 	// An inbound ETX whose gas limit (>= 21000, as opETX / CreateETX require at the origin) does not cover
 	// the intrinsic gas of its own data at the destination: ApplyMessage returns ErrIntrinsicGas.
-	{"etx-gas-below-intrinsic", 8, func(c *chain, i int, b *types.WorkObject) types.Transactions {
+	{name: "etx-gas-below-intrinsic", blocks: 8, script: func(c *chain, i int, b *types.WorkObject) types.Transactions {
 		if i != 2 {
 			return nil
 		}
@@ -552,4 +612,35 @@ var corpus = []corpusCase{
 		}
 		return out
 	}},
+	// Conflict clusters in the pool (see conflicts.go): 2, 3, 4, 5 transactions spending one outpoint, ties
+	// in price, partial overlaps in both input orders, two interleaved double-spend races; one cluster per
+	// block, next to the ordinary generated traffic. Whatever the worker's arbitration does with the
+	// rejected members, the block must be accepted by the node's own validation.
+	{name: "qi-conflict-clusters", blocks: 4 + len(corpusPatterns) + 1, noMut: true,
+		script: func(c *chain, i int, b *types.WorkObject) types.Transactions {
+			if i != 1 && i != 6 {
+				return nil
+			}
+			var out types.Transactions
+			for k := 0; k < 14; k++ {
+				var oh common.Hash
+				oh[0], oh[2], oh[30], oh[31] = 0x01, 0x01, byte(i), byte(0xa0+k)
+				own := 0
+				if k%4 == 3 {
+					own = 1
+				}
+				to := c.w.qis[own].addr
+				out = append(out, etx(&types.ExternalTx{To: &to, Gas: 21000, Value: big.NewInt(int64(10 + k%4)), EtxType: types.DefaultType,
+					OriginatingTxHash: oh, ETXIndex: uint16(k), Sender: c.w.farQi[0].addr}))
+				c.utxos = append(c.utxos, utxoRef{types.OutPoint{TxHash: oh, Index: uint16(k)}, own, c.height})
+			}
+			return out
+		},
+		pool: func(c *chain, i int, r *hlib.Rng, head *types.WorkObject, base *big.Int) []*types.Transaction {
+			if i < 4 || i-4 >= len(corpusPatterns) {
+				return nil
+			}
+			k := corpusPatterns[i-4]
+			return c.qiCluster(r, head, base, k.p, k.equal)
+		}},
 }
